@@ -148,6 +148,13 @@ def check(case):
   from openhtf.util import validators as _validators  # pylint: disable=g-import-not-at-top
   prog = copy.deepcopy(case['prog'])
   htf = ohtf.reset_case(cancel_timeout_s=0.05, plug_teardown_timeout_s=0.05, **progs.conf_values(prog))
+  # a station configuration value that is not plain JSON data (the configuration snapshot is part of every record)
+  from openhtf.util import configuration as _configuration  # pylint: disable=g-import-not-at-top
+  if 'vf_c10_calibration' not in _configuration.CONF._declarations:  # pylint: disable=protected-access
+    _configuration.CONF.declare('vf_c10_calibration')
+  conf_kind = case.get('conf_value')
+  if conf_kind:
+    _configuration.CONF.load(vf_c10_calibration={'inf': float('inf'), 'nan': float('nan'), 'set': {1, 2}, 'tuple': (1, 2.5), 'nested-nan': {'gain': [1.0, float('nan')]}}[conf_kind])
   ctx = progs.Ctx()
   decls = case['meas']
   names = ['rm%d' % i for i in range(len(decls))]
@@ -545,7 +552,10 @@ def cases(draw):
             'transform': draw(st.sampled_from([None, None, ['mul', 100], ['mul', 2], ['str'], ['prec', 1]])),
             'validator': draw(st.booleans()), 'cv': draw(st.sampled_from([None, None, 'active', 'inactive']))} for _ in range(nm)]
   n = draw(st.integers(1, 30))
-  return {'prog': prog, 'meas': decls, 'ops': [draw(ops(decls)) for _ in range(n)], 'pos': draw(st.integers(0, 3))}
+  case = {'prog': prog, 'meas': decls, 'ops': [draw(ops(decls)) for _ in range(n)], 'pos': draw(st.integers(0, 3))}
+  if draw(st.integers(0, 5)) == 0:
+    case['conf_value'] = draw(st.sampled_from(['inf', 'nan', 'set', 'tuple', 'nested-nan']))
+  return case
 
 
 def plan(tier, seed):
